@@ -682,3 +682,20 @@ theorem finalFallback_scope_ne_notAllowed {matchPat : Matcher Pat} {req : Req}
         simpa [finalFallback] using this
 
 end ActixModel.Route
+
+namespace ActixModel.Route
+
+/-! ## laws of a pattern matcher that C09 statements about segment boundaries rely on
+(C10 proves them of the real pattern language; `Proofs/RouteMini.lean` of the stand-in) -/
+
+/-- prefix patterns (scopes) end at the end of the path or before a `/` -/
+def PrefixBoundary {Pat : Type} (matchPat : Matcher Pat) : Prop :=
+  ∀ p s len caps, matchPat p true s = some (len, caps) →
+    s.drop len = [] ∨ (s.drop len).head? = some '/'
+
+/-- full patterns (resources) consume the whole remaining path -/
+def FullMatch {Pat : Type} (matchPat : Matcher Pat) : Prop :=
+  ∀ p s len caps, matchPat p false s = some (len, caps) → s.drop len = []
+
+
+end ActixModel.Route
